@@ -4,6 +4,7 @@
 import os, sys
 sys.path.insert(0, os.path.dirname(os.path.abspath(__file__)))
 from states import adt, F_HS
+from derived_common import header_items
 
 F_REC = "src/tls_record.rs"
 
@@ -73,6 +74,7 @@ pub open spec fn framed_enc(r: IResult<&[u8], TlsEncrypted>) -> Framed {
 
 UNIT = {
     "name": "frame",
+    "needs_expanded": True,
     "property": ["C02", "C06", "C11"],
     "prelude": ["shim_nom.rs"],
     "items": [
@@ -85,9 +87,7 @@ UNIT = {
         {"file": F_REC, "kind": "const", "name": "MAX_RECORD_LEN", "ensures": "MAX_RECORD_LEN == 16640",
          "proof": "assert((1u16 << 14) == 16384u16) by (bit_vector);"},
         {"file": "-", "kind": "inline", "name": "framing-contract", "text": SPEC},
-        {"file": F_REC, "kind": "fn", "name": "parse_tls_record_header", "external_body": True, "contract": """
-    ensures header_post(i@, r),
-"""},
+    ] + header_items() + [
         {"file": F_REC, "kind": "fn", "name": "parse_tls_encrypted", "contract": """
     ensures framing_post(i@, framed_enc(r)),
 """},
